@@ -19,7 +19,7 @@ CASE_TIMEOUT = 20
 TIERS = {"quick": {"n": 1800}, "thorough": {"n": 40000}}
 RULE = ("histories of 1-50 (thorough: up to 120) public dict-API calls (item get/set/del, get, setdefault, update "
         "with dict/mapping/pairs/generator + kwargs, |=, pop, popitem, clear, copy, in, len, iteration, items, "
-        "==/!= against dicts and caches) on an LRI or LRU with max_size 1-4 (sometimes 5-8, thorough also 128), 3-7 "
+        "==/!= against dicts, caches and non-mappings, update(self, **kw), update(other cache)) on an LRI or LRU with max_size 1-4 (sometimes 5-8, thorough also 128), 3-7 "
         "keys, on_miss None or a recording function, optional constructor values; ops are spread over the original "
         "and its copies; every history ends with an eviction probe (max_size fresh keys inserted one by one, full "
         "view after each) on every cache; observed after every call: outcome, len, the three counters, on_miss "
@@ -83,7 +83,7 @@ def vtok(obj):
 LOOKUPS = ("getitem", "get", "setdefault")
 W_OPS = [("set", 22), ("getitem", 14), ("get", 8), ("setdefault", 7), ("del", 5), ("pop", 6), ("popitem", 3),
          ("clear", 1), ("update", 5), ("ior", 3), ("in", 4), ("len", 1), ("iter", 2), ("items", 2), ("eq", 3),
-         ("ne", 1), ("copy", 3), ("eqc", 2), ("updself", 1), ("eqo", 1), ("neo", 1)]
+         ("ne", 1), ("copy", 3), ("eqc", 2), ("updself", 1), ("eqo", 1), ("neo", 1), ("updfrom", 2)]
 
 
 def _pairs(rng, keys, nvals, lo, hi, unique):
@@ -186,6 +186,14 @@ def gen_case(rng, tier):
             continue
         elif name == "eqc":
             op.update(j=rng.randrange(ncaches))
+        elif name == "updfrom":
+            if ncaches < 2 and rng.random() < 0.8:
+                continue
+            j = rng.randrange(ncaches)
+            op.update(j=j)
+            ops.append(op)
+            ops.append({"op": "len", "i": j})       # the source right after: its hits / recency
+            continue
         elif name == "updself":
             op.update(f=[[KW0 + t, rng.randrange(nvals)] for t in rng.sample(range(4), rng.choice([0, 1, 1, 2, 3]))])
         elif name in ("eqo", "neo"):
@@ -378,6 +386,12 @@ def run_impl(case):
                 r = (c == caches[resolve(op["j"], len(caches))])
                 assert r is True or r is False
                 out = ["bool", r]
+            elif name == "updfrom":
+                src = caches[resolve(op["j"], len(caches))]
+                order = [ktok(k) for k in list(src)]      # iteration order of the source, before
+                r = c.update(src)
+                assert r is None
+                out = ["keys", order]
             elif name == "updself":
                 r = c.update(c, **{key(k): val(v) for k, v in op["f"]})
                 assert r is None
@@ -491,6 +505,8 @@ def to_coq(case, obs):
             ncaches += 1
         elif op["op"] == "eqc":
             h = "EqCache %s %s" % (cnat(i), cnat(resolve(op["j"], ncaches)))
+        elif op["op"] == "updfrom":
+            h = "UpdateFrom %s %s" % (cnat(i), cnat(resolve(op["j"], ncaches)))
         else:
             h = "On %s (%s)" % (cnat(i), _op1(op, o))
         ob = "mkObs %s %s %s %s %s %s %s" % (
@@ -539,7 +555,7 @@ def nontrivial(case, obs):
     for op, o, i, before, after in _views(case, obs):
         n = op["op"]
         if before is not None and after is not None and (before - after) and n in (
-                "set", "getitem", "get", "setdefault", "update", "ior") and touched:
+                "set", "getitem", "get", "setdefault", "update", "ior", "updfrom", "updself") and touched:
             return True
         if n in LOOKUPS and o["out"][0] == "ok" and not o["calls"] and before is not None and op["k"] in before:
             touched = True
